@@ -730,7 +730,7 @@ Example C01_shipped_witness_detects_late_removal :
   end.
 Proof. vm_compute. reflexivity. Qed.
 
-(* ====================================================================================================
+(* =============================================================================================
    %rewrite blocks as a whole, and the soundness of the literal-word test (added last; everything above is unchanged).
    ==================================================================================================== *)
 From Annet Require Import Proofs.ConvergeRewriteBlock Proofs.ShippedLitQuiet.
@@ -874,3 +874,203 @@ Example C01_lit_quiet_nonvacuous :
   existsb is_huawei Src_shipped = true.
 Proof. vm_compute. repeat split; reflexivity. Qed.
 
+(* ==================================================================================================== W01b: begin
+   %ORDERED RULES BEYOND THE FLAT CASE (Proofs/ConvergeOrdFrame.v, ConvergeOrdHeader.v, ConvergeOrdLevel.v,
+   ConvergeOrdLevelTop.v; Spec/P_C01olvl.v).  Three results towards [C01_ordered_general_statement]; the hypothesis
+   "no %ordered key changes its row text" is kept everywhere (open finding C01/ordered/retext-reorders).
+   ==================================================================================================== *)
+From Annet Require Import Spec.P_C01olvl Proofs.ConvergeOrdFrame Proofs.ConvergeOrdHeader Proofs.ConvergeOrdLevelTop.
+From Annet Require Proofs.ConvergeOrdLevel.   (* not imported: its section-local names (P, q, g, rel, ...) stay qualified *)
+
+(* C01_ordered_frame.  THE FRAME RULE ON SEQUENCES (what C01_exec_commute gives for the dict reading only).  On a level of
+   the reference device of ANY shape - rows of %ordered rules mixed with rows of other rules and rows no rule knows, rows
+   with bodies, patch items with children - with unambiguous removal commands ([lvl_ok]) and "the key determines the row"
+   for %ordered slots ([okr]): running ANY list of patch items tagged by [otag] (a direct command of an %ordered slot is
+   the list machine's direct command, the removal command of an %ordered slot its removal, every item of another slot
+   nothing) changes the sequence of the %ordered rows of the level exactly as the list machine of C01_ordered_machine
+   run on the commands of the %ordered slots; commands of other slots and everything executed inside blocks do not
+   change the relative order of the %ordered rows.  Every Tier-A patch item has a tag ([C01_ordered_frame_total]). *)
+Theorem C01_ordered_frame :
+  forall rmatch rreverse is_exit rs U, lvl_ok rmatch rreverse is_exit rs U -> okr rmatch rs U ->
+  forall items css f, Forall2 (otag rmatch rreverse rs U) items css -> lgood rmatch rs U f ->
+    ord_seq rmatch rs (fold_left (fun a i => run_item rmatch rreverse is_exit rs i a) items f) =
+    fold_left lstep (List.concat css) (ord_seq rmatch rs f) /\
+    lgood rmatch rs U (fold_left (fun a i => run_item rmatch rreverse is_exit rs i a) items f).
+Proof. exact frame_seq. Qed.
+Print Assumptions C01_ordered_frame.
+
+Theorem C01_ordered_frame_total :
+  forall rmatch rreverse rs U i, uitem rmatch rreverse rs U i -> exists c, otag rmatch rreverse rs U i c.
+Proof. exact uitem_otag. Qed.
+Print Assumptions C01_ordered_frame_total.
+
+(* ... composed with the list machine: a patch whose %ordered commands satisfy the machine's three conditions turns the
+   %ordered sequence P ++ M of a level into P ++ D, whatever else it does on the level *)
+Theorem C01_ordered_frame_machine :
+  forall rmatch rreverse is_exit rs U, lvl_ok rmatch rreverse is_exit rs U -> okr rmatch rs U ->
+  forall (P M D : list string) items css f,
+    Forall2 (otag rmatch rreverse rs U) items css -> lgood rmatch rs U f -> ord_seq rmatch rs f = (P ++ M)%list ->
+    NoDup (P ++ M)%list -> NoDup (P ++ D)%list -> dirs (List.concat css) = D ->
+    (forall r, In (false, r) (List.concat css) -> In r M) -> (forall r, In r M -> In (false, r) (List.concat css)) ->
+    (forall l1 r l2, List.concat css = (l1 ++ (true, r) :: l2)%list -> ~ In (false, r) l2) ->
+    ord_seq rmatch rs (fold_left (fun a i => run_item rmatch rreverse is_exit rs i a) items f) = (P ++ D)%list.
+Proof. intros rmatch rreverse is_exit rs U HU Hk P M D items css f. apply frame_machine; assumption. Qed.
+Print Assumptions C01_ordered_frame_machine.
+
+(* C01_ordered_block_header.  The header step, for ANY body: old = [(h, T bo)], new = [(h, T bn)], h governed by a rule with
+   default diff logic and default logic (no %force_commit, no exit word, no %rewrite child in bo).  If the patch of the
+   bodies, computed with the ordering rules get_order hands down for h ([ord_below]), turns bo into bn, then the patch of
+   the blocks turns old into new: the diff has one AFFECTED (or UNCHANGED) entry whose children are the bodies' diff, the
+   patch one block item, the device enters the block and runs the child patch inside.  EQUALITY OF FORESTS. *)
+Theorem C01_ordered_block_header :
+  forall rmatch rsrc rrev block_exit rreverse is_exit fam,
+  block_family fam = true -> (forall ex, In ex (family_exits fam) -> is_exit ex = true) ->
+  forall rs h mh crs, match_row rmatch h rs = Some (mh, crs) ->
+  mi_dlogic mh = DDefault -> a_logic (mi_attrs mh) = LDefault -> a_force_commit (mi_attrs mh) = false -> is_exit h = false ->
+  forall bo bn, enter rmatch crs bo = bo ->
+  forall ord ct,
+    make_patch rmatch rsrc rrev block_exit rreverse (make_pre (make_diff rmatch crs bo bn))
+               (ord_below rmatch rsrc rrev block_exit h ord) = POk ct ->
+    prows_ok is_exit ct -> exec rmatch rreverse is_exit crs (cmd_paths fam ct) bo = bn ->
+  exists pt, make_patch rmatch rsrc rrev block_exit rreverse (make_pre (make_diff rmatch rs [(h, T bo)] [(h, T bn)])) ord = POk pt /\
+             prows_ok is_exit pt /\
+             exec rmatch rreverse is_exit rs (cmd_paths fam pt) [(h, T bo)] = [(h, T bn)].
+Proof. exact header_converges. Qed.
+Print Assumptions C01_ordered_block_header.
+
+(* C01_ordered_below_headers.  An %ordered level of leaves BELOW A CHAIN OF BLOCK HEADERS of any length: old = wrap hs bo,
+   new = wrap hs bn (h1 { h2 { ... { the level } } }), in the computable domain [wf_ord_chain] (Proofs/ConvergeOrdHeader.v: every
+   header as in C01_ordered_block_header, the level in [wf_ord_flat] for the child rule set and the ordering rules handed
+   down along the chain): the patch is computed and executing the model's command paths on old yields new - EQUAL AS A
+   FOREST, the rows of the level in new's sequence.  (hs = []: C01_ordered_flat.) *)
+Theorem C01_ordered_below_headers :
+  forall v hs rs ordering bo bn, wf_ord_chain v rs ordering hs bo bn = true ->
+  exists pt, snd (diff_and_patch v rs ordering (wrap hs bo) (wrap hs bn)) = POk pt /\
+             p_exec v rs (cmd_paths (v_family v) pt) (wrap hs bo) = wrap hs bn.
+Proof. exact ordered_chain_model. Qed.
+Print Assumptions C01_ordered_below_headers.
+
+Definition c01_oh_rules : rset :=
+  ([PRule "acl *" false (Attrs "acl *" LDefault DDefault true false)
+      [PRule "section *" false (Attrs "section *" LDefault DDefault true false)
+         [PRule "entry * %ordered" false (Attrs "entry *" LOrdered DOrdered false false) [] []] []] []], []).
+Example C01_ordered_below_headers_nonvacuous :
+  wf_ord_chain c01_ex_v c01_oh_rules [] ["acl a"; "section s"] c01_of_old c01_of_new = true /\
+  model_paths c01_ex_v c01_oh_rules [] (wrap ["acl a"; "section s"] (leaves ["entry 1"; "entry 2 a"; "entry 3"]))
+                                        (wrap ["acl a"; "section s"] (leaves ["entry 3"; "entry 1"])) =
+    Some [["acl a"]; ["acl a"; "section s"]; ["acl a"; "section s"; "undo entry 3"]; ["acl a"; "section s"; "undo entry 1"];
+          ["acl a"; "section s"; "undo entry 2"]; ["acl a"; "section s"; "entry 3"]; ["acl a"; "section s"; "entry 1"];
+          ["acl a"; "section s"; "quit"]; ["acl a"; "quit"]].
+Proof. vm_compute. split; reflexivity. Qed.
+
+(* C01_ordered_level_seq_partial.  A level of ANY shape: rows of one %ordered rule MIXED with rows of rules with the default
+   diff logic and any of the six logics and with rows no rule knows; ALL rows may have BODIES of any depth governed by any
+   rules.  In the computable domain [wf_ord_level] (Spec/P_C01olvl.v: unambiguous removal commands, the key determines
+   the row of the %ordered rule, [order_ok_o], a patch without repeated rows): the patch is computed and, executed on old,
+   leaves the rows of the %ordered rule in the SEQUENCE new holds them.
+   Proof: Proofs/ConvergeOrdLevel.v - base_diff does not look at subtrees, so the %ordered entries of the diff are, up to
+   children, the flat diff of the two sequences; make_pre groups them in that order; every other slot yields only direct
+   commands of its own rows and its own removal command, for any logic; the stable sort commutes with the projection on the
+   %ordered slots; blocks that stay in front and are entered are no-ops of the list machine; then C01_ordered_frame and
+   C01_ordered_machine.
+   PARTIAL with respect to [C01_ordered_general_statement]: (a) the sequence clause is proved for the level itself, not for
+   the levels below rows both configurations hold ([seq_agree] recurses); (b) the dict clause sim (prune dev) (prune expected)
+   is not proved for levels with %ordered rows.  Missing for both: the patch computed from the diff below a MOVED row (ops
+   Moved / Added / Removed at every depth: C03_moved_all_depths), executed in the freshly re-created EMPTY block, rebuilds new's
+   body - the slot-by-slot induction of Proofs/ConvergeMain.v with the device state [] in place of old's body (its claim
+   covers pop = Affected / Added / Removed only). *)
+Theorem C01_ordered_level_seq_partial :
+  forall v rs ordering old new, wf_ord_level v rs ordering old new = true ->
+  exists pt, snd (diff_and_patch v rs ordering old new) = POk pt /\
+             p_ord_seq rs (p_exec v rs (cmd_paths (v_family v) pt) old) = p_ord_seq rs new.
+Proof. exact ordered_level_model. Qed.
+Print Assumptions C01_ordered_level_seq_partial.
+
+(* ... for any matcher, stated on the patch tree *)
+Theorem C01_ordered_level_seq_any_matcher :
+  forall rmatch rsrc rrev block_exit rreverse is_exit rs UF,
+  lvl_ok rmatch rreverse is_exit rs UF -> okr rmatch rs UF -> forall R aR, ConvergeOrdLevel.odom rmatch rs UF R aR ->
+  forall fo fn, rows_in UF fo -> rows_in UF fn -> NoDup (keys fo) -> NoDup (keys fn) ->
+  forall ord pt, make_patch rmatch rsrc rrev block_exit rreverse (make_pre (make_diff rmatch rs fo fn)) ord = POk pt ->
+  lvl_uniq rmatch rs fo -> undo_first_b rmatch rreverse pt rs = true -> ord_keys_ok_b rmatch pt rs = true ->
+  ord_seq rmatch rs (run_pt rmatch rreverse is_exit pt rs fo) = ord_seq rmatch rs fn.
+Proof. exact ConvergeOrdLevel.level_seq. Qed.
+Print Assumptions C01_ordered_level_seq_any_matcher.
+
+(* non-vacuity: %ordered blocks with bodies (one entered in front, two moved, one added), a default rule, a permanent rule, an
+   unknown row on one level; the guards of C01_ordered_frame hold of its universe *)
+Definition c01_ol_rules : rset :=
+  ([PRule "entry * %ordered" false (Attrs "entry *" LOrdered DOrdered true false)
+      [PRule "mtu *" false (Attrs "mtu *" LDefault DDefault false false) [] []] [];
+    PRule "hostname *" false (Attrs "hostname *" LDefault DDefault false false) [] [];
+    PRule "vlan * %logic=common.permanent" false (Attrs "vlan *" LPermanent DDefault false false) [] []], []).
+Definition c01_ol_old : forest :=
+  [("entry 1", T [("mtu 5", T [])]); ("hostname a", T []); ("entry 2", T []); ("unknown x", T []);
+   ("entry 3", T [("mtu 7", T [])]); ("vlan 10", T [])].
+Definition c01_ol_new : forest :=
+  [("entry 1", T [("mtu 6", T [])]); ("entry 3", T [("mtu 7", T [])]); ("hostname b", T []); ("entry 4", T []);
+   ("entry 2", T [("mtu 9", T [])])].
+Example C01_ordered_level_nonvacuous :
+  wf_ord_level c01_ex_v c01_ol_rules [] c01_ol_old c01_ol_new = true /\
+  model_paths c01_ex_v c01_ol_rules [] c01_ol_old c01_ol_new =
+    Some [["undo entry 3"]; ["undo entry 2"]; ["entry 1"]; ["entry 1"; "undo mtu 5"]; ["entry 1"; "mtu 6"]; ["entry 1"; "quit"];
+          ["entry 3"]; ["entry 3"; "mtu 7"]; ["entry 3"; "quit"]; ["entry 4"]; ["entry 4"; "quit"]; ["entry 2"];
+          ["entry 2"; "mtu 9"]; ["entry 2"; "quit"]; ["undo hostname a"]; ["hostname b"]] /\
+  p_ord_seq c01_ol_rules c01_ol_old = ["entry 1"; "entry 2"; "entry 3"] /\
+  p_ord_seq c01_ol_rules c01_ol_new = ["entry 1"; "entry 3"; "entry 4"; "entry 2"] /\
+  lvl_ok_b c01_ex_v c01_ol_rules (keys c01_ol_old ++ keys c01_ol_new)%list = true.
+Proof. vm_compute. repeat split; reflexivity. Qed.
+Example C01_ordered_frame_nonvacuous :
+  lvl_ok pm (prreverse c01_ex_v) (v_is_exit c01_ex_v) c01_ol_rules (c01_ol_old ++ c01_ol_new)%list /\
+  okr pm c01_ol_rules (c01_ol_old ++ c01_ol_new)%list.
+Proof.
+  assert (H : lvl_ok_b c01_ex_v c01_ol_rules (keys c01_ol_old ++ keys c01_ol_new)%list = true) by (vm_compute; reflexivity).
+  assert (E : keys (c01_ol_old ++ c01_ol_new)%list = (keys c01_ol_old ++ keys c01_ol_new)%list) by reflexivity.
+  split; [exact (guard_lvl_ok _ _ _ H _ E) | exact (guard_okr _ _ _ H _ E)].
+Qed.
+
+(* C01_ordered_block_header_runs.  The header step with NO assumption on what the body's patch does: the block ends with the
+   body the child patch builds (C01_ordered_block_header is the case "... builds bn"); this is what carries the SEQUENCE
+   reading of a level below block headers. *)
+Theorem C01_ordered_block_header_runs :
+  forall rmatch rsrc rrev block_exit rreverse is_exit fam,
+  block_family fam = true -> (forall ex, In ex (family_exits fam) -> is_exit ex = true) ->
+  forall rs h mh crs, match_row rmatch h rs = Some (mh, crs) ->
+  mi_dlogic mh = DDefault -> a_logic (mi_attrs mh) = LDefault -> a_force_commit (mi_attrs mh) = false -> is_exit h = false ->
+  forall bo bn, enter rmatch crs bo = bo ->
+  forall ord ct,
+    make_patch rmatch rsrc rrev block_exit rreverse (make_pre (make_diff rmatch crs bo bn))
+               (ord_below rmatch rsrc rrev block_exit h ord) = POk ct ->
+    prows_ok is_exit ct ->
+  exists pt, make_patch rmatch rsrc rrev block_exit rreverse (make_pre (make_diff rmatch rs [(h, T bo)] [(h, T bn)])) ord = POk pt /\
+             prows_ok is_exit pt /\
+             exec rmatch rreverse is_exit rs (cmd_paths fam pt) [(h, T bo)] = [(h, T (run_pt rmatch rreverse is_exit ct crs bo))].
+Proof. exact header_runs. Qed.
+Print Assumptions C01_ordered_block_header_runs.
+
+(* C01_ordered_level_below_headers_seq_partial.  A level of ANY shape (as in C01_ordered_level_seq_partial) BELOW A CHAIN OF
+   BLOCK HEADERS of any length, in the computable domain [wf_ord_level_below] (headers as in C01_ordered_block_header; the
+   level in [wf_ord_level] for the child rule set [chain_rs] and the ordering rules [chain_ord] handed down along the chain):
+   the patch is computed; executed on old the device is wrap hs body, and the rows of the %ordered rule in body are in the
+   SEQUENCE of new's level.  PARTIAL in the same sense as C01_ordered_level_seq_partial. *)
+Theorem C01_ordered_level_below_headers_seq_partial :
+  forall v hs rs ordering bo bn, wf_ord_level_below v rs ordering hs bo bn = true ->
+  exists pt body, snd (diff_and_patch v rs ordering (wrap hs bo) (wrap hs bn)) = POk pt /\
+                  p_exec v rs (cmd_paths (v_family v) pt) (wrap hs bo) = wrap hs body /\
+                  p_ord_seq (chain_rs rs hs) body = p_ord_seq (chain_rs rs hs) bn.
+Proof. exact ordered_level_below_model. Qed.
+Print Assumptions C01_ordered_level_below_headers_seq_partial.
+
+Definition c01_olh_rules : rset :=
+  ([PRule "acl *" false (Attrs "acl *" LDefault DDefault true false) (fst c01_ol_rules) []], []).
+Example C01_ordered_level_below_headers_nonvacuous :
+  wf_ord_level_below c01_ex_v c01_olh_rules [] ["acl a"] c01_ol_old c01_ol_new = true /\
+  match model_paths c01_ex_v c01_olh_rules [] (wrap ["acl a"] c01_ol_old) (wrap ["acl a"] c01_ol_new) with
+  | Some ps => p_exec c01_ex_v c01_olh_rules ps (wrap ["acl a"] c01_ol_old) =
+               [("acl a", T [("entry 1", T [("mtu 6", T [])]); ("unknown x", T []); ("vlan 10", T []);
+                             ("entry 3", T [("mtu 7", T [])]); ("entry 4", T []); ("entry 2", T [("mtu 9", T [])]);
+                             ("hostname b", T [])])]
+  | None => False
+  end.
+Proof. vm_compute. split; reflexivity. Qed.
+(* ==================================================================================================== W01b: end *)
